@@ -22,9 +22,12 @@ def entry_pools(rng, npools):
             [tg.res(tg.enum("i32"), P("string"))], [tg.arr(P("u8"), 4), tg.vec(P("u8"))],
             [tg.arr(tg.enum("i32"), 3), tg.vec(tg.enum("i32"))], [tg.vec(P("string"))], [tg.vec(P("u16"))],     # arrays of variable-width elements; values that may be empty sequences
         ]
-        n = rng.choice([4, 5, 6])
+        # the first pool takes every candidate, so that each entry type is exercised whatever the random draws give (a sampled subset lost the
+        # Optional and map / unordered_map entries when candidates were added)
+        n = len(cands) if p == 0 else rng.choice([4, 5, 6])
         chosen = rng.sample(cands, n)
-        ids = rng.sample([0, 1, 2, 3, 7, 100, 127, 128, 255, 256, 65535, 65536, 1 << 32, (1 << 63) + 5], n)
+        idpool = [0, 1, 2, 3, 7, 100, 127, 128, 255, 256, 65535, 65536, 1 << 32, (1 << 63) + 5, 4, 5, 6, 8, 9, 10, 11, 12]
+        ids = rng.sample(idpool, n) if p else idpool[:n]
         # alternatives of array kind must list the fixed-size one first (values are generated to fit it)
         pools.append([{"id": i, "alts": a} for i, a in zip(ids, chosen)])
     return pools
